@@ -75,6 +75,19 @@ def run_tool(case, data, a, b, in_b, out_b):
                 rc = paramconv.cli_run(input=path, output=path + '.out',
                                        sourceformat='ebcdic' if a == 'cp500' else 'ascii', no1014blocking=not in_b)
                 outp = path + '.out'
+            elif tool in ('encode-argv', 'param-argv'):
+                # the REAL command line: the tool's own argument parser turns the words into options (with its defaults)
+                # and hands them to cli_run; both ways of asking for an unblocked file: the format options, and the older
+                # --no1014blocking switch (when both sides are unblocked)
+                from cardutil.cli import mci_ipm_encode, mci_ipm_param_encode
+                mod = mci_ipm_encode if tool == 'encode-argv' else mci_ipm_param_encode
+                argv = [path, '-o', path + '.out', '--in-encoding', a, '--out-encoding', b]
+                if not in_b and not out_b and case.get('switch'):
+                    argv += ['--no1014blocking']
+                else:
+                    argv += ['--in-format', fmt(in_b), '--out-format', fmt(out_b)]
+                rc = mod.cli_run(**vars(mod.cli_parser().parse_args(argv)))
+                outp = path + '.out'
             elif tool == 'encode-cli':
                 from cardutil.cli import mci_ipm_encode
                 rc = mci_ipm_encode.cli_run(in_filename=path, out_filename=path + '.out', in_encoding=a, out_encoding=b,
@@ -204,6 +217,19 @@ def explore(run, tier):
             b = 'cp500' if a == 'latin_1' else 'latin_1'
             for blk in (0, 1):
                 cases.append({'kind': 'ipm', 'tool': 'mideu', 'a': a, 'b': b, 'inb': blk, 'outb': blk, 'msgs': msgs})
+    # binary ICC data whose ONE-byte lengths have the top bit set (128..255: no long-form marker in this format), values shaped
+    # like nested templates — deterministic, whatever the seed draws elsewhere
+    for ai, (a, b) in enumerate((('latin_1', 'cp500'), ('cp500', 'cp037'), ('cp037', 'latin_1'))):
+        msgs = []
+        for ln in (128, 129, 130, 144, 200, 250, 255):
+            val = iu.nested_template(rng, ln)
+            icc = b'\x9a\x03\x24\x01\x02' + b'\x9f\x10' + bytes([ln]) + val      # (the template is the LAST data object)
+            msgs.append(iu.dict_wire({'MTI': '1240', 'DE2': '5' * 16, 'DE55': icc}))
+        for inb, outb in ((0, 0), (1, 1), (0, 1), (1, 0)):
+            cases.append({'kind': 'ipm', 'tool': 'encode', 'a': a, 'b': b, 'inb': inb, 'outb': outb, 'msgs': msgs})
+        if a in ('latin_1', 'cp500'):
+            cases.append({'kind': 'ipm', 'tool': 'mideu', 'a': a, 'b': 'cp500' if a == 'latin_1' else 'latin_1', 'inb': ai % 2,
+                          'outb': ai % 2, 'msgs': msgs})
     # numbers and dates given as TEXT in spellings that are not the canonical one (a sign, blanks, an underscore; exactly
     # the element's width or not): the library writes the canonical rendering, so the file converts there and back to
     # itself byte for byte
@@ -256,6 +282,17 @@ def explore(run, tier):
             for inb, outb in ((1, 1), (1, 0), (0, 1)):
                 cases.append({'kind': 'param', 'tool': 'param', 'a': a, 'b': b, 'inb': inb, 'outb': outb, 'recs': recs})
         cases.append({'kind': 'param', 'tool': 'paramconv', 'a': 'cp500', 'b': 'latin_1', 'inb': 1, 'outb': 1, 'recs': recs})
+    # the tools through their own ARGUMENT PARSERS (defaults of the parser included), with the format options and with the
+    # older --no1014blocking switch
+    for a, b in (('latin_1', 'cp500'), ('cp500', 'latin_1')):
+        for inb, outb in ((0, 0), (1, 1), (0, 1), (1, 0)):
+            for sw in (False, True):
+                cases.append({'kind': 'param', 'tool': 'param-argv', 'a': a, 'b': b, 'inb': inb, 'outb': outb, 'switch': sw,
+                              'recs': ['c1c2c3', '0102030405' * 30, '4040' * 600]})
+                cases.append({'kind': 'ipm', 'tool': 'encode-argv', 'a': a, 'b': b, 'inb': inb, 'outb': outb, 'switch': sw,
+                              'msgs': [iu.dict_wire({'MTI': '1240', 'DE2': '5' * 16, 'DE42': 'MERCHANT'.ljust(15)}),
+                                       iu.dict_wire({'MTI': '1240', 'DE2': '4' * 16, 'DE72': 'x' * 900}),
+                                       iu.dict_wire({'MTI': '1240', 'DE2': '4' * 16, 'DE72': 'y' * 900})]})
     # command entry points with the DEFAULT output name, on input files called x.bin, x.out, x (the second leg of a
     # round trip done with default names converts a file that is itself called *.out)
     for fname in ('params.bin', 'params.out', 'params', 'a.b.out'):
